@@ -17,13 +17,17 @@ try:
     m = re.search(r'<repo[^>]*>/([A-Za-z0-9_/\.]*)', readme)
     sub = os.path.dirname(m.group(1)) if m and '/' in m.group(1) else ''
     if 'deeplinks' in readme: sub = 'telegram/deeplinks'
-    cmdline = [l.strip() for l in readme.splitlines() if l.strip().startswith('go test') or l.strip().startswith('go run')]
+    cmdline = [l.strip()[l.strip().index('go test'):] for l in readme.splitlines() if 'go test' in l and ('-run' in l or './' in l)] or [l.strip() for l in readme.splitlines() if l.strip().startswith('go run')]
     cmd = cmdline[0] if cmdline else 'go test -vet=off -count=1 ./...'
     mm = re.search(r'\s(\./[A-Za-z0-9_/]+?)/?(\s|$)', cmd)
     if mm and not sub and mm.group(1) not in ('./...',):
         sub = mm.group(1)[2:]
     rundir = wt
     if sub == 'telegram/deeplinks': rundir = os.path.join(wt, sub)
+    if 'internal/cmd/tlgen' in readme:
+        rundir = os.path.join(wt, 'internal/cmd/tlgen')
+        m2 = re.search(r'\./(gen|tlparser)', cmd)
+        sub = 'internal/cmd/tlgen/' + (m2.group(1) if m2 else 'gen')
     for f in files: shutil.copy(os.path.join(seed, 'demo', f), os.path.join(wt, sub, f))
     rc0, out0 = sh(cmd + ' 2>&1', rundir)
     res['demo_passes_without_patch'] = rc0 == 0
